@@ -47,7 +47,7 @@ def gen_scenario(r, i):
         grouped = r.random() < 0.5
         forker = grouped and r.random() < 0.35
         script = CHILD[kind][1] + (",fork_ignorer=1" if forker else "")
-        state = r.choice(["running", "running", "running", "never-started", "mid-restart", "mid-stop", "deleted", "cloned", "queued-controls", "finished"])
+        state = r.choice(["running", "running", "running", "never-started", "mid-restart", "mid-stop", "deleted", "delete-pending", "cloned", "queued-controls", "finished"])
         t_create = tq if same_action else 30
         # a command in a session of its own (setsid) is killed on drop like any other
         session = (not grouped) and r.random() < 0.3
@@ -65,6 +65,8 @@ def gen_scenario(r, i):
                 add(tq - r.choice([50, 150]), "stop_with_signal", sig="Terminate", grace_ms=r.choice([200, 300]))
             elif state == "deleted":
                 add(tq - 150, "delete")
+            elif state == "delete-pending":
+                add(tq, "delete")            # an unawaited delete() in the very action that quits: the quit's own controls queue up behind it
             elif state == "finished":
                 add(tq - 200, "stop")
         if state == "cloned":
@@ -110,11 +112,19 @@ def _session_abort():
             "jobs": [{"kind": 2, "grouped": False, "forker": False, "state": "running", "mops": [{"at": 30, "op": "start", "yield": True}]}]}
 
 
+def _delete_pending(manner):
+    q = {"manner": "abort"} if manner == "abort" else {"manner": "graceful", "sig": "Terminate", "grace_ms": 100}
+    return {"steps": [{"at_ms": 30, "acts": [{"job": 0, "op": "create", "script": CHILD[0][1], "grouped": False}, {"job": 0, "op": "start"}]},
+                      {"at_ms": 400, "acts": [{"job": 0, "op": "delete"}], "quit": q}],
+            "wait_ms": 2500, "settle_ms": 200, "tq": 400, "manner": manner, "qsig": "Terminate", "qgrace": 100, "same_action": False,
+            "jobs": [{"kind": 0, "grouped": False, "forker": False, "state": "delete-pending", "mops": [{"at": 30, "op": "start", "yield": True}, {"at": 400, "op": "delete", "yield": False}]}]}
+
+
 SCEN_CORPUS = [
     # several jobs whose commands all ignore the signal: they are stopped concurrently, one grace period in total
     _three_ignoring(400),
     # a job created and started in the action that quits, its handle cloned and kept elsewhere
-    _same_action_cloned("graceful"), _same_action_cloned("abort"), _session_abort(),
+    _same_action_cloned("graceful"), _same_action_cloned("abort"), _session_abort(), _delete_pending("graceful"), _delete_pending("abort"),
     # known finding: grouped command, leader exits on the signal, another member ignores it
     {"steps": [{"at_ms": 30, "acts": [{"job": 0, "op": "create", "script": CHILD[0][1] + ",fork_ignorer=1", "grouped": True}, {"job": 0, "op": "start"}]},
                {"at_ms": 400, "acts": [], "quit": {"manner": "graceful", "sig": "Terminate", "grace_ms": 250}}],
